@@ -123,12 +123,12 @@ def defined_case(h, joint="Revolute", pairing="RB-RB", axis=0, seed=0):
 
 
 def pairings_for(joint, tier):
-    # rod cross-section pairings: quaternion rod end node against a rigid body (quick: one per joint family), R12 rod and
+    # rod cross-section pairings: quaternion rod end node against a rigid body (quick: Spherical, FixedDistance, Revolute without the acceleration level), R12 rod and
     # rigid body -> rod start node in the thorough tier
     if joint in ("Spherical", "FixedDistance"):
         return ["RB-RB", "RB-PM", "F-RB", "ROD-RB"] if tier == "quick" else ["RB-RB", "RB-PM", "PM-RB", "PM-PM", "F-RB", "RB-F", "F-PM", "ROD-RB", "RB-ROD", "RODR12-RB"]
     if tier == "quick":
-        return ["RB-RB"] + (["F-RB"] if joint in ("Revolute", "Prismatic") else []) + (["ROD-RB"] if joint in ("Revolute", "RigidConnection", "Cylindrical") else [])
+        return ["RB-RB"] + (["F-RB"] if joint in ("Revolute", "Prismatic") else []) + (["ROD-RB"] if joint == "Revolute" else [])
     return ["RB-RB", "F-RB", "RB-F", "ROD-RB", "RB-ROD", "RODR12-RB"]
 
 
@@ -143,6 +143,8 @@ def cases(tier, seed):
         for pairing in pairings_for(joint, tier):
             for axis in axes:
                 for lv in LEVELS:
+                    if tier == "quick" and "ROD" in pairing and lv == ("acc",) and joint not in ("Spherical", "FixedDistance"):
+                        continue    # orientation rows of g_ddot on a rod cross-section need more than the quick budget: thorough tier
                     cs.append(Case(f"{joint}/{pairing}/ax{axis}/{lv[0]}", joint_case,
                                    dict(joint=joint, pairing=pairing, axis=axis, levels=lv, seed=seed, two_axes=(tier == "thorough")), timeout=T, hard=T * 10))
         dpair = ["RB-RB"] + (["RB-PM"] if joint in ("Spherical", "FixedDistance") else []) + (["F-RB"] if tier == "thorough" else [])
